@@ -149,6 +149,14 @@ theorem permute_maps_keys {ops : Ops α} (h : LawfulBeq ops) (perm : List (Strin
 
 end Perm
 
+/-- integer operations, used for kernel-checked witnesses -/
+def intOps : Ops Int :=
+  { zero := 0, one := 1, add := (· + ·), sub := (· - ·), neg := fun x => -x, div := (· / ·),
+    le := fun a b => decide (a ≤ b), beq := fun a b => a == b, ofNat := fun n => (n : Int) }
+
+/-- a base with one objective `f` that marks every point infeasible (NaN-like junk value 0) -/
+def infBase : Ex Int := .base { params := [], metrics := [("f", .minimize)] } (fun _ => .infeasible [("f", 0)])
+
 /-! ### ordered-field arithmetic -/
 
 section Field
